@@ -204,3 +204,202 @@ Proof.
   intros s d s' Hs Hd Hst. eapply fp_step_ok; eauto.
 Qed.
 End FP.
+
+(* ================================================================== LocalInteraction *)
+Definition acts_ok (n N : Z) (acts : list Z) : Prop :=
+  zlen acts = N /\ Forall (fun a => 0 <= a < n) acts.
+
+Lemma set_at_nat_Forall {A} (Pp : A -> Prop) : forall (a : list A) i v,
+  Forall Pp a -> Pp v -> Forall Pp (set_at_nat a i v).
+Proof.
+  induction a as [|x r IH]; intros i v Ha Hv; destruct i; simpl; auto; inversion Ha; subst; constructor; auto.
+Qed.
+Lemma set_at_Forall {A} (Pp : A -> Prop) (a : list A) i v : Forall Pp a -> Pp v -> Forall Pp (set_at a i v).
+Proof. intros. unfold set_at. destruct (i <? 0); auto using set_at_nat_Forall. Qed.
+
+Lemma zget_set_at : forall (a : list Z) i v j, 0 <= i < zlen a -> 0 <= j ->
+  zget (set_at a i v) j = if j =? i then v else zget a j.
+Proof.
+  intros a i v j Hi Hj. unfold zget, set_at. destruct (Z.ltb_spec j 0); [lia|]. destruct (Z.ltb_spec i 0); [lia|].
+  unfold zlen in Hi.
+  pose proof (set_at_nat_nth_error a (Z.to_nat i) v (Z.to_nat j)) as E.
+  destruct (Z.eqb_spec j i) as [->|Hne].
+  - rewrite Nat.eqb_refl in E. destruct (Nat.ltb_spec (Z.to_nat i) (length a)); [|lia].
+    apply nth_error_nth with (d := 0) in E. exact E.
+  - destruct (Nat.eqb_spec (Z.to_nat j) (Z.to_nat i)); [lia|].
+    destruct (nth_error a (Z.to_nat j)) eqn:Ea.
+    + rewrite (nth_error_nth _ _ 0 E), (nth_error_nth _ _ 0 Ea). reflexivity.
+    + apply nth_error_None in Ea. rewrite !nth_overflow; auto. now rewrite set_at_nat_length.
+Qed.
+
+Section LocalInt.
+Variables (A adj : list (list Q)) (tol : Q).
+
+Definition li_counts (actions : list Z) (i : Z) : list Q :=
+  neighbour_counts (zlen A) (nth (Z.to_nat i) adj []) actions.
+Definition li_br (actions : list Z) (i : Z) : option Z := best_response (mat_vec A (li_counts actions i)) tol.
+
+Definition li_F (old : list Z) (acc : option (list Z)) (i : Z) : option (list Z) :=
+  match acc with
+  | None => None
+  | Some acts => match li_br old i with Some b => Some (set_at acts i b) | None => None end
+  end.
+
+Lemma combine_map_r {X Y} (g : X -> Y) : forall l, combine l (map g l) = map (fun x => (x, g x)) l.
+Proof. induction l; simpl; congruence. Qed.
+
+Lemma fold_left_map {X Y Z'} (f : Z' -> Y -> Z') (h : X -> Y) : forall l a,
+  fold_left f (map h l) a = fold_left (fun a x => f a (h x)) l a.
+Proof. induction l; intros; simpl; auto. Qed.
+
+Lemma localint_play_fold : forall actions players,
+  localint_play A adj tol actions players = fold_left (li_F actions) players (Some actions).
+Proof.
+  intros actions players. unfold localint_play. cbv zeta.
+  rewrite combine_map_r, fold_left_map. reflexivity.
+Qed.
+
+Lemma li_fold_None : forall old players, fold_left (li_F old) players None = None.
+Proof. induction players; simpl; auto. Qed.
+
+Lemma li_fold_spec : forall old players acts0 acts',
+  fold_left (li_F old) players (Some acts0) = Some acts' ->
+  (forall i, In i players -> 0 <= i < zlen acts0) ->
+  zlen acts' = zlen acts0 /\
+  (forall n, Forall (fun a => 0 <= a < n) acts0 -> zlen A = n -> Forall (fun a => 0 <= a < n) acts') /\
+  forall j, 0 <= j < zlen acts0 ->
+    Some (zget acts' j) = if existsb (Z.eqb j) players then li_br old j else Some (zget acts0 j).
+Proof.
+  intros old players. induction players as [|i r IH]; intros acts0 acts' Hf Hin.
+  - simpl in Hf. injection Hf as <-. repeat split; auto.
+  - cbn [fold_left li_F] in Hf.
+    destruct (li_br old i) as [b|] eqn:Eb; [|rewrite li_fold_None in Hf; discriminate].
+    assert (Hi : 0 <= i < zlen acts0) by (apply Hin; left; auto).
+    assert (Hl1 : zlen (set_at acts0 i b) = zlen acts0) by (unfold zlen; now rewrite set_at_length).
+    destruct (IH (set_at acts0 i b) acts' Hf) as [Hl [Hrange Hpt]].
+    { intros k Hk. rewrite Hl1. apply Hin. right. exact Hk. }
+    split; [lia|]. split.
+    + intros n Hn HA. apply Hrange; auto. apply set_at_Forall; auto.
+      unfold li_br in Eb. apply best_response_range in Eb. rewrite mat_vec_length in Eb. lia.
+    + intros j Hj. rewrite Hpt by lia. cbn [existsb].
+      destruct (existsb (Z.eqb j) r) eqn:Er; [now rewrite orb_true_r|]. rewrite orb_false_r.
+      rewrite zget_set_at by lia. destruct (Z.eqb_spec j i) as [->|]; [now rewrite Eb|reflexivity].
+Qed.
+
+Theorem localint_play_closed : forall actions players acts',
+  localint_play A adj tol actions players = Some acts' ->
+  (forall i, In i players -> 0 <= i < zlen actions) ->
+  zlen acts' = zlen actions /\
+  forall j, 0 <= j < zlen actions ->
+    Some (zget acts' j) = localint_closed_at A adj tol actions players j.
+Proof.
+  intros actions players acts' Hp Hin. rewrite localint_play_fold in Hp.
+  destruct (li_fold_spec actions players actions acts' Hp Hin) as [Hl [_ Hpt]].
+  split; [exact Hl|]. intros j Hj. rewrite (Hpt j Hj). reflexivity.
+Qed.
+
+Lemma zrange_from_In : forall k s i, In i (zrange_from s k) <-> s <= i < s + Z.of_nat k.
+Proof.
+  induction k as [|k IH]; intros s i; simpl; [lia|].
+  rewrite IH. lia.
+Qed.
+
+Theorem localint_step_ok : forall n N actions d acts',
+  zlen A = n -> zlen adj = N -> acts_ok n N actions ->
+  localint_step A adj tol actions d = Some acts' -> acts_ok n N acts'.
+Proof.
+  intros n N actions d acts' HA Hadj [Hl Hr] Hs. unfold localint_step in Hs.
+  assert (Hgen : forall players, (forall i, In i players -> 0 <= i < zlen actions) ->
+                   localint_play A adj tol actions players = Some acts' -> acts_ok n N acts').
+  { intros players Hin Hp. rewrite localint_play_fold in Hp.
+    destruct (li_fold_spec actions players actions acts' Hp Hin) as [Hl' [Hrange _]].
+    split; [lia|]. apply Hrange; auto. }
+  destruct d as [i|].
+  - destruct ((i <? 0) || (zlen adj <=? i)) eqn:E; [discriminate|].
+    apply orb_false_iff in E. destruct E as [E1 E2]. apply Z.ltb_ge in E1. apply Z.leb_gt in E2.
+    apply (Hgen [i]); auto. intros k [<-|[]]. lia.
+  - apply (Hgen (zrange (zlen adj))); auto. intros k Hk. unfold zrange in Hk. apply zrange_from_In in Hk. lia.
+Qed.
+
+Theorem localint_range : forall n N actions ds h f,
+  zlen A = n -> zlen adj = N -> acts_ok n N actions ->
+  localint_series A adj tol actions ds = Some (h, f) ->
+  length h = length ds /\ nth_error (h ++ [f]) 0 = Some actions /\ Forall (acts_ok n N) (h ++ [f]).
+Proof.
+  intros n N actions ds h f HA Hadj Hok Hr. unfold localint_series in Hr.
+  apply (run_inv (localint_step A adj tol) (acts_ok n N) (fun _ _ => True) (fun _ => True)) in Hr; auto.
+  - tauto.
+  - intros s d s' Hs _ Hst. split; auto. eapply localint_step_ok; eauto.
+  - apply Forall_forall. auto.
+Qed.
+End LocalInt.
+
+(* ================================================================== LogitDynamics, every Num *)
+Section Logit.
+Context {T : Type} `{Num T}.
+
+Lemma ss_right_range : forall (a : list T) v, 0 <= ss_right a v <= zlen a.
+Proof.
+  induction a as [|x r IH]; intros v; unfold zlen in *; simpl; [lia|].
+  destruct (nleb x v); specialize (IH v); lia.
+Qed.
+
+Lemma ss_right_lt : forall (a : list T) v, a <> [] -> nleb (last a nzero) v = false -> ss_right a v < zlen a.
+Proof.
+  induction a as [|x r IH]; intros v Hne Hl; [congruence|].
+  unfold zlen. cbn [ss_right length]. destruct (nleb x v) eqn:E; [|lia].
+  destruct r as [|y r'].
+  - simpl in Hl. congruence.
+  - assert (Hlt : ss_right (y :: r') v < zlen (y :: r')) by (apply IH; [discriminate|exact Hl]).
+    unfold zlen in Hlt. cbn [length] in *. lia.
+Qed.
+
+Definition unitl (u : T) : Prop := nleb nzero u = true /\ nltb u none_ = true.
+
+(* ns: numbers of actions; the tables hold, for every player and opponents' profile, a non-empty cdf of the
+   player's length whose total c satisfies the scaling fact  not (c <= u*c)  for uniforms u *)
+Variable ns : list Z.
+Variable cdfs : list (list (list Z * list T)).
+Hypothesis tables_ok : forall i tbl key cdf,
+  nth_error cdfs i = Some tbl -> lookup tbl key = Some cdf ->
+  cdf <> [] /\ Some (zlen cdf) = nth_error ns i /\
+  forall u, unitl u -> nleb (last cdf nzero) (nmul u (last cdf nzero)) = false.
+
+Definition acts_in (acts : list Z) : Prop := Forall2 (fun a n => 0 <= a < n) acts ns.
+
+Lemma set_at_nat_Forall2 {X Y} (R : X -> Y -> Prop) : forall (a : list X) (b : list Y) i v y,
+  Forall2 R a b -> nth_error b i = Some y -> R v y -> Forall2 R (set_at_nat a i v) b.
+Proof.
+  intros a b i v y Hab. revert i. induction Hab as [|x0 y0 a b Hxy Hab IH]; intros i Hy Hv; [destruct i; discriminate|].
+  destruct i; simpl in *.
+  - injection Hy as ->. constructor; auto.
+  - constructor; auto.
+Qed.
+
+Theorem logit_step_ok : forall acts d acts',
+  acts_in acts -> unitl (snd d) -> logit_step cdfs acts d = Some acts' -> acts_in acts'.
+Proof.
+  intros acts [i u] acts' Ha Hu Hs. simpl in Hu. unfold logit_step in Hs.
+  destruct ((i <? 0) || (zlen acts <=? i)) eqn:E; [discriminate|].
+  apply orb_false_iff in E. destruct E as [E1 E2]. apply Z.ltb_ge in E1. apply Z.leb_gt in E2.
+  destruct (nth_error cdfs (Z.to_nat i)) as [tbl|] eqn:Et; [|discriminate].
+  destruct (lookup tbl (opponents acts i)) as [cdf|] eqn:El; [|discriminate].
+  injection Hs as <-.
+  destruct (tables_ok _ _ _ _ Et El) as [Hne [Hlen Hsc]].
+  unfold set_at. destruct (Z.ltb_spec i 0); [lia|].
+  eapply set_at_nat_Forall2; eauto.
+  pose proof (ss_right_range cdf (nmul u (last cdf nzero))).
+  pose proof (ss_right_lt cdf (nmul u (last cdf nzero)) Hne (Hsc u Hu)). lia.
+Qed.
+
+Theorem logit_range : forall acts ds h f,
+  acts_in acts -> Forall (fun d => unitl (snd d)) ds ->
+  logit_series cdfs acts ds = Some (h, f) ->
+  length h = length ds /\ nth_error (h ++ [f]) 0 = Some acts /\ Forall acts_in (h ++ [f]).
+Proof.
+  intros acts ds h f Ha Hd Hr. unfold logit_series in Hr.
+  apply (run_inv (logit_step cdfs) acts_in (fun _ _ => True) (fun d => unitl (snd d))) in Hr; auto.
+  - tauto.
+  - intros s d s' Hs Hdd Hst. split; auto. eapply logit_step_ok; eauto.
+Qed.
+End Logit.
